@@ -1,7 +1,9 @@
 """Contracts of the reduction performed by pacti.utils.plots.constraints_to_vertices (C18), domain S: the 2-D system
 handed to the vertex routine is exactly the slice (fixed values substituted, axis limits added, x first, y second).
-The vertex routine itself (_get_bounding_vertices: Chebyshev LP, Qhull, atan2, LP fallback) is outside the verifier's
-reach and is replaced by a recording stub; it is covered by the bounded monitor only."""
+The vertex routine (_get_bounding_vertices) is replaced there by a recording stub and has contracts of its own below:
+the Chebyshev-centre LP of _get_feasible_point (A4, A5 with the Euclidean norm), the halfspace encoding handed to Qhull
+and the pass-through of its corners (Qhull itself by its assumed contract A10), the four-direction LP fallback, and the
+ordering by angle as a permutation.  That the corners Qhull returns ARE the corners is decided by the bounded monitor."""
 import z3
 
 from contracts.registry import contract
@@ -85,9 +87,265 @@ for _n, _names, _tier, _sh in ((1, ["x", "y", "z"], "quick", 4), (2, ["x", "y", 
         [PLOTS + ":constraints_to_vertices", PLOTS + ":_substitute_in_termlist", PLOTS + ":_gen_boundary_constraints", POLY + ":PolyhedralTermList.termlist_to_polytope"],
         "S",
         bound="%d terms over {%s} (every support), either axis order, values for any subset of the other variables" % (_n, ",".join(_names)),
-        assumes=["A5", "A10: _get_bounding_vertices returns the corners of the system it is handed (bounded monitor only)"],
+        assumes=["A5", "contract of _get_bounding_vertices (its own contracts below; Qhull by A10)"],
         covers=["reduced", "ValueError"],
         tier=_tier,
         shards=_sh,
         weight=2 * _n,
     )(_slice(_n, _names))
+
+
+# ------------------------------------------------------------------------------------------------
+# the vertex routine: Chebyshev centre LP, Qhull by its assumed contract (A10), LP fallback, ordering by angle
+# ------------------------------------------------------------------------------------------------
+from pyvc.core import NativeFn  # noqa: E402
+from pyvc.hdom import LP, ExplicitSpace  # noqa: E402
+
+
+class _QhullError(RuntimeError):
+    pass
+
+
+def _system(h, s, n_user):
+    """a_mat, b of a 2-column system: n_user symbolic rows followed by the four axis limits (the call site always adds them,
+    so the region is bounded)"""
+    rows, bs = [], []
+    for i in range(n_user):
+        rows.append([s.real("a%d_x" % i), s.real("a%d_y" % i)])
+        bs.append(s.real("b%d" % i))
+    lim = [s.real(n) for n in ("xhi", "mxlo", "yhi", "mylo")]
+    for r, bi in zip(([1.0, 0.0], [-1.0, 0.0], [0.0, 1.0], [0.0, -1.0]), lim):
+        rows.append(list(r))
+        bs.append(bi)
+    return NArr([list(r) for r in rows], (len(rows), 2)), NArr(list(bs), (len(bs),)), rows, bs
+
+
+def _region(rows, bs):
+    def f(px, py, margin=None, norms=None):
+        cs = []
+        for k, (r, bi) in enumerate(zip(rows, bs)):
+            lhs = to_real(r[0]) * px + to_real(r[1]) * py
+            if margin is not None:
+                lhs = lhs + margin * norms[k]
+            cs.append(lhs <= to_real(bi))
+        return z3.And(*cs)
+
+    return f
+
+
+def _spaces(h):
+    sp = {}
+    return lambda c_, A_: sp.setdefault(len(c_.items if isinstance(c_, PList) else c_.data), ExplicitSpace(h.ctx, len(c_.items if isinstance(c_, PList) else c_.data)))
+
+
+def _feasible_point(n_user):
+    def c(h):
+        s = S(h)
+        h.I.load_module(PLOTS)
+        A, b, rows, bs = _system(h, s, n_user)
+        lp = LP(h, _spaces(h))
+        lp.install(PLOTS)
+        region = _region(rows, bs)
+        qx, qy, rho = s.real("q_x"), s.real("q_y"), s.real("rho")
+
+        def on_call(call):
+            # instances of A4's quantified part at the contract's skolem points
+            for q in ([qx, qy, z3.RealVal(0)], [qx, qy, rho]):
+                h.assume(call.inst(q), None)
+
+        lp.on_call = on_call
+        A0, b0 = [list(r) for r in A.data], list(b.data)
+        out = h.call(h.I.get_func(PLOTS + ":_get_feasible_point"), [A, b])
+        h.check("A4.one_lp", len(lp.calls) == 1, "%d LPs" % len(lp.calls))
+        if not lp.calls:
+            return
+        call = lp.calls[0]
+        # the LP is the Chebyshev-centre problem of the system: columns (x, y, r), row i = (a_i, |a_i|) <= b_i, and -r <= 0
+        norms = [to_real(rw[2]) for rw in call.rows[:-1]] if all(len(rw) == 3 for rw in call.rows) else None
+        shape_ok = norms is not None and len(call.rows) == len(rows) + 1
+        h.check("C18.feasible_point.lp_has_one_row_per_constraint_plus_the_sign_of_the_radius", shape_ok, "%d LP rows for %d constraints" % (len(call.rows), len(rows)))
+        if not shape_ok:
+            return
+        for k, (rw, r0) in enumerate(zip(call.rows, rows)):
+            h.ensure("C18.feasible_point.lp_row_%d_is_the_constraint_with_its_norm" % k, z3.And(to_real(rw[0]) == to_real(r0[0]), to_real(rw[1]) == to_real(r0[1]), rw[2] >= 0, rw[2] * rw[2] == to_real(r0[0]) * to_real(r0[0]) + to_real(r0[1]) * to_real(r0[1]), to_real(call.b[k]) == to_real(bs[k])))
+        if out.kind == "raise":
+            h.check("C14.feasible_point.only_valueerror", out.exc_is(h.I, ValueError), "raised %s at %s" % (out.exc_name, out.where))
+            h.cover("ValueError")
+            h.ensure("C18.feasible_point.rejects_only_an_empty_region", z3.Not(region(qx, qy)))
+        else:
+            h.cover("point")
+            pt = out.value
+            ok = isinstance(pt, NArr) and pt.ndim == 1 and pt.shape[0] == 2
+            h.check("C18.feasible_point.returns_a_point_of_the_plane", ok, "%r" % (pt,))
+            if ok:
+                px, py = to_real(pt.data[0]), to_real(pt.data[1])
+                h.ensure("C18.feasible_point.point_is_in_the_region", region(px, py))
+                # whenever some disc of positive radius fits in the region, the returned point is strictly inside
+                fits = z3.And(rho > 0, region(qx, qy, rho, norms))
+                strictly = z3.And(*[z3.Implies(nk > 0, to_real(r[0]) * px + to_real(r[1]) * py < to_real(bi)) for r, bi, nk in zip(rows, bs, norms)])
+                h.ensure("C18.feasible_point.strictly_inside_whenever_the_region_has_interior", z3.Implies(fits, strictly))
+        h.check("C13.feasible_point.arguments_unchanged", A.data == A0 and b.data == b0, "argument array modified")
+        h.frame_ok(out, "C13.frame")
+
+    return c
+
+
+for _n in (0, 1):
+    contract(
+        "plots._get_feasible_point[%d constraints and the axis limits]" % _n,
+        ["C18", "C14", "C13"],
+        [PLOTS + ":_get_feasible_point"],
+        "S",
+        bound="%d symbolic rows followed by the four axis-limit rows" % _n,
+        assumes=["A4", "A5"],
+        covers=["point", "ValueError"],
+    )(_feasible_point(_n))
+
+
+class _Qhull:
+    """A10: scipy.spatial.HalfspaceIntersection(halfspaces, interior_point) - rows [a, -b] mean a.x - b <= 0; given a
+    strictly interior point it returns the corners of the region in `.intersections`; otherwise it raises QhullError."""
+
+    def __init__(self, h, s):
+        self.h, self.s = h, s
+        self.calls = []
+
+    def __call__(self, I, args, kwargs):
+        hs, ip = args[0], args[1]
+        k = self.h.ctx.choose(4, "qhull")  # 0: QhullError, 1..3: that many corners
+        rec = {"halfspaces": hs, "interior_point": ip, "k": k}
+        self.calls.append(rec)
+        if k == 0:
+            I.raise_native(_QhullError, None, "QhullError")
+        pts = [[self.s.real("v%d_x" % i), self.s.real("v%d_y" % i)] for i in range(k)]
+        rec["points"] = pts
+        return _QhullResult(NArr([list(p) for p in pts], (k, 2)))
+
+
+class _QhullResult:
+    def __init__(self, inter):
+        self.inter = inter
+
+    def ext_getattr(self, I, name):
+        if name == "intersections":
+            return self.inter
+        raise Unsupported("HalfspaceIntersection.%s" % name)
+
+
+def _pairs(value):
+    """(x tuple, y tuple) -> list of (x, y) or None"""
+    if not (isinstance(value, tuple) and len(value) == 2 and all(isinstance(t, tuple) for t in value) and len(value[0]) == len(value[1])):
+        return None
+    return list(zip(value[0], value[1]))
+
+
+def _same_multiset(got, exp):
+    exp = list(exp)
+    for g in got:
+        for j, e in enumerate(exp):
+            if all(z3.eq(z3.simplify(to_real(a)), z3.simplify(to_real(b))) for a, b in zip(g, e)):
+                del exp[j]
+                break
+        else:
+            return False
+    return not exp
+
+
+def _bounding_vertices(n_user):
+    def c(h):
+        s = S(h)
+        h.I.load_module(PLOTS)
+        A, b, rows, bs = _system(h, s, n_user)
+        region = _region(rows, bs)
+        lp = LP(h, _spaces(h))
+        lp.install(PLOTS)
+        qh = _Qhull(h, s)
+        h.I.overrides[(PLOTS, "HalfspaceIntersection")] = NativeFn("HalfspaceIntersection", qh)
+        h.I.overrides[(PLOTS, "QhullError")] = _QhullError
+        atan = z3.Function("atan2", z3.RealSort(), z3.RealSort(), z3.RealSort())
+        h.I.overrides[(PLOTS, "atan2")] = NativeFn("atan2", lambda I, a, k: atan(to_real(a[0]), to_real(a[1])))
+        fp = {}
+
+        def feasible_point(I, args, kwargs):
+            # contract of _get_feasible_point (proved above): ValueError only for an empty region, else a point of the region
+            fp["args"] = args
+            if h.ctx.choose(2, "feasible_point") == 0:
+                h.assume(z3.Not(region(s.real("any_x"), s.real("any_y"))), "contract:_get_feasible_point.rejects_only_empty")
+                I.raise_native(ValueError, None, "Constraints are unfeasible")
+            ip = [s.real("ip_x"), s.real("ip_y")]
+            fp["ip"] = ip
+            h.assume(region(ip[0], ip[1]), "contract:_get_feasible_point.point_in_region")
+            return NArr(list(ip), (2,))
+
+        h.I.stubs[PLOTS + ":_get_feasible_point"] = feasible_point
+
+        def on_call(call):
+            if "ip" in fp:
+                h.assume(call.inst(fp["ip"]), None)
+
+        lp.on_call = on_call
+        A0, b0 = [list(r) for r in A.data], list(b.data)
+        out = h.call(h.I.get_func(PLOTS + ":_get_bounding_vertices"), [A, b])
+        if out.kind == "raise":
+            h.check("C14.vertices.only_valueerror", out.exc_is(h.I, ValueError), "raised %s at %s" % (out.exc_name, out.where))
+            h.check("C18.vertices.valueerror_only_for_an_empty_region", "ip" not in fp, "ValueError although the region has a point")
+            h.cover("ValueError")
+            return
+        pairs = _pairs(out.value)
+        h.check("C18.vertices.returns_x_and_y_tuples", pairs is not None, "%r" % (out.value,))
+        if pairs is None:
+            return
+        h.check("C18.vertices.qhull_asked_once", len(qh.calls) == 1, "%d Qhull calls" % len(qh.calls))
+        if len(qh.calls) != 1:
+            return
+        q = qh.calls[0]
+        hs = q["halfspaces"]
+        enc = isinstance(hs, NArr) and hs.ndim == 2 and hs.shape == (len(rows), 3)
+        h.check("A10.vertices.halfspaces_have_three_columns", enc, "%r" % (hs,))
+        if enc:
+            for k, (hr, r0, bi) in enumerate(zip(hs.data, rows, bs)):
+                h.ensure("A10.vertices.halfspace_%d_is_a_x_minus_b" % k, z3.And(to_real(hr[0]) == to_real(r0[0]), to_real(hr[1]) == to_real(r0[1]), to_real(hr[2]) == -to_real(bi)))
+        ipa = q["interior_point"]
+        h.check("A10.vertices.interior_point_is_the_feasible_point", isinstance(ipa, NArr) and "ip" in fp and all(z3.eq(to_real(x), y) for x, y in zip(ipa.data, fp["ip"])), "%r" % (ipa,))
+        h.check("C18.vertices.feasible_point_of_this_system", fp.get("args") is not None and fp["args"][0] is A and fp["args"][1] is b, "feasible point asked for another system")
+        if q["k"] > 0:
+            h.cover("qhull")
+            # the corners Qhull found are returned, all of them, nothing else (ordering by angle only permutes them)
+            h.check("C18.vertices.qhull_corners_returned_exactly", _same_multiset(pairs, q["points"]), "returned %r for corners %r" % (pairs, q["points"]))
+            h.check("C18.vertices.no_lp_when_qhull_succeeds", not lp.calls, "%d LPs" % len(lp.calls))
+        else:
+            h.cover("fallback")
+            # degenerate region: the extreme points in the four axis directions
+            h.check("C18.vertices.fallback_solves_four_lps", len(lp.calls) == 4, "%d LPs" % len(lp.calls))
+            if len(lp.calls) == 4:
+                want = [(0, 1), (0, -1), (1, 0), (-1, 0)]
+                pts = []
+                for k, (call, w) in enumerate(zip(lp.calls, want)):
+                    same_sys = len(call.rows) == len(rows) and all(all(z3.eq(z3.simplify(to_real(x)), z3.simplify(to_real(y))) for x, y in zip(rw, r0)) for rw, r0 in zip(call.rows, rows)) and all(z3.eq(z3.simplify(to_real(x)), z3.simplify(to_real(y))) for x, y in zip(call.b, bs))
+                    h.check("C18.vertices.fallback_lp_%d_over_the_region" % k, same_sys, "LP %d is not over the system" % k)
+                    cv = [z3.simplify(to_real(x)) for x in call.c]
+                    h.check("C18.vertices.fallback_lp_%d_direction" % k, len(cv) == 2 and all(z3.eq(x, z3.simplify(z3.RealVal(y))) for x, y in zip(cv, w)), "LP %d minimises %r, expected %r" % (k, cv, w))
+                    h.check("C18.vertices.fallback_lp_%d_has_an_optimum" % k, call.status == 0, "status %d on a non-empty bounded region" % call.status)
+                    if call.status == 0:
+                        pts.append(list(call.x))
+                if len(pts) == 4:
+                    h.check("C18.vertices.fallback_returns_the_four_extreme_points", _same_multiset(pairs, pts), "returned %r" % (pairs,))
+                    for k, p in enumerate(pairs):
+                        h.ensure("C18.vertices.fallback_point_%d_in_region" % k, region(to_real(p[0]), to_real(p[1])))
+        h.check("C13.vertices.arguments_unchanged", A.data == A0 and b.data == b0, "argument array modified")
+        h.frame_ok(out, "C13.frame")
+
+    return c
+
+
+for _n in (0, 1):
+    contract(
+        "plots._get_bounding_vertices[%d constraints and the axis limits]" % _n,
+        ["C18", "C14", "C13"],
+        [PLOTS + ":_get_bounding_vertices"],
+        "S",
+        bound="%d symbolic rows followed by the four axis-limit rows; Qhull returns 1-3 corners or fails" % _n,
+        assumes=["A4", "A5", "A10: Qhull (HalfspaceIntersection) returns the corners of the region described by the halfspaces it is given, or raises QhullError", "contract of _get_feasible_point (proved separately)", "atan2 is some function of its arguments"],
+        covers=["qhull", "fallback", "ValueError"],
+        shards=4,
+    )(_bounding_vertices(_n))
